@@ -274,6 +274,40 @@ static void op_overwrite_h(Exec& x, const Json& op, int)
 	x.sb.put_file(rel, gen_bytes((uint64_t)op.num("seed"), (size_t)op.num("size")), s, ns, op.num("new_inode") != 0);
 }
 
+// a change that shows only in the sub-second part of the time-stamp: same size, same second, other (or zero) nanoseconds;
+// new bytes, or only the stamp (tools and file systems without sub-second precision produce the zero)
+static void op_samesec_h(Exec& x, const Json& op, int)
+{
+	std::string rel = sel(x, op);
+	if (rel.empty()) return;
+	uint64_t sz; int64_t s, ns;
+	Bytes b;
+	if (!x.sb.stat_file(rel, sz, s, ns) || !x.sb.get_file(rel, b)) return;
+	int64_t nns;
+	switch (op.num("mode") % 4) {
+	case 0: nns = 0; break;
+	case 1: nns = 1; break;
+	case 2: nns = ns > 0 ? ns - 1 : 999999999; break;
+	default: nns = (ns + 1) % 1000000000; break;
+	}
+	if (nns == ns) nns = (ns + 7) % 1000000000;
+	{
+		// never a stamp this file already had with this size (two such steps could otherwise walk back to the recorded stamp
+		// with other bytes: that is silent corruption, not a change)
+		std::string top = rel.substr(0, rel.find('/')), sub = rel.substr(rel.find('/') + 1);
+		std::string dn;
+		for (auto& d : x.sb.cfg.disks) if (d.top == top) dn = d.name;
+		for (int guard = 0; guard < 64 && !dn.empty() && x.sb.versions.get(dn, sub, sz, s, nns); ++guard) nns = (nns + 13) % 1000000000;
+	}
+	if (op.num("rewrite") && !b.empty()) {
+		Bytes nb = gen_bytes((uint64_t)op.num("seed"), b.size());
+		if (nb == b) nb[0] = (char)(nb[0] ^ 1);
+		x.sb.put_file(rel, nb, s, nns, op.num("new_inode") != 0);
+	} else
+		x.sb.set_mtime(rel, s, nns);
+	x.probe("subsecond_only_change");
+}
+
 static void op_append_h(Exec& x, const Json& op, int)
 {
 	std::string rel = sel(x, op);
@@ -540,6 +574,7 @@ static struct RegisterGeneric {
 		Exec::register_op("create", op_create_h);
 		Exec::register_op("overwrite", op_overwrite_h);
 		Exec::register_op("append", op_append_h);
+		Exec::register_op("samesec", op_samesec_h);
 		Exec::register_op("truncate", op_truncate_h);
 		Exec::register_op("delete", op_delete_h);
 		Exec::register_op("rename", op_rename_h);
@@ -670,9 +705,12 @@ std::vector<Json> gen_mutations(Rng& rng, const Config& cfg, int n, bool odd)
 		int64_t d = (int64_t)rng.below(cfg.disks.size());
 		int64_t f = (int64_t)rng.below(64);
 		Json o = Json::obj();
-		switch (rng.below(16)) {
+		switch (rng.below(17)) {
 		case 0: case 1: case 2: case 3:
 			o = op_create(rng, cfg, (int)d, odd);
+			break;
+		case 16:
+			o.set("k", "samesec").set("d", d).set("f", f).set("mode", (int)rng.below(4)).set("rewrite", (int)rng.chance(3, 4)).set("seed", rng.next() >> 1).set("new_inode", (int)rng.below(2));
 			break;
 		case 4: case 5:
 			o.set("k", "overwrite").set("d", d).set("f", f).set("size", gen_size(rng, bs)).set("seed", rng.next() >> 1).set("new_inode", (int)rng.below(2));
